@@ -318,7 +318,7 @@ func Build(family string, specs []*spec.Spec, opt Options) (*Corpus, error) {
 		out += vout
 	}
 	c.attribute(out)
-	if !opt.NoDriver {
+	{
 		// Repack: remove the methods whose generated code does not compile (attributed through
 		// the enclosing generated function of each diagnostic), regenerate those designs and
 		// compile again, so that one bad method does not hide the other methods of its design.
